@@ -20,6 +20,7 @@ Record zlike (A : arith) (S : Z) := {
   r_ltv_exact : exact A = false -> forall a b, ltv A a b = (raw a <? raw b);
   r_gev_exact : exact A = false -> forall a b, gev A a b = (raw b <=? raw a);
   r_eqv_exact : exact A = false -> forall a b, eqv A a b = (raw a =? raw b);
+  r_gtv_exact : exact A = false -> forall a b, gtv A a b = (raw b <? raw a);
   (* a multiplier compares equal to one exactly when it is one (also under the fuzzy Guarded comparison) *)
   r_eqv_one : forall a n, raw a = n * S -> eqv A a (of_int A 1) = (n =? 1);
   r_kmuldiv0 : forall a b c up, raw c = 0 -> kmuldiv A a b c up = Raise ZeroDivisionError;
@@ -37,7 +38,7 @@ Lemma zlike_fixed p d : 0 <= p -> zlike (Fixed p d) (10 ^ p).
 Proof.
   intros Hp. pose proof (pow10_pos'' p Hp) as HS.
   assert (HS': f_scale (mk_fixed_cls p d) <> 0) by (cbn; lia).
-  refine {| raw := fun a : T (Fixed p d) => (a : Z) |}; cbn [Fixed T of_int add sub mulv divv kmuldiv ltv gev eqv exact rnd_of epsilon].
+  refine {| raw := fun a : T (Fixed p d) => (a : Z) |}; cbn [Fixed T of_int add sub mulv divv kmuldiv ltv gev eqv gtv exact rnd_of epsilon].
   - auto.
   - exact HS.
   - intros n. reflexivity.
@@ -50,6 +51,7 @@ Proof.
   - intros _ a b. unfold res_true, FixedKernels.dunder_lt, operand_value, bind. destruct (a <? b); reflexivity.
   - intros _ a b. unfold res_true, FixedKernels.dunder_ge, operand_value, bind. destruct (b <=? a); reflexivity.
   - intros _ a b. unfold res_true, FixedKernels.dunder_eq, operand_value, bind. destruct (a =? b); reflexivity.
+  - intros _ a b. unfold res_true, FixedKernels.dunder_gt, operand_value, bind. destruct (b <? a); reflexivity.
   - intros a n Ha. cbn in Ha. unfold res_true, FixedKernels.dunder_eq, operand_value, bind. cbn [FixedKernels.init FixedKernels.init_r f_scale mk_fixed_cls].
     subst a. destruct (n * 10 ^ p =? 1 * 10 ^ p) eqn:E; destruct (n =? 1) eqn:E2; try reflexivity; nia.
   - intros a b c up Hc. cbn in Hc. subst c. unfold FixedKernels.muldiv. cbn [FixedKernels.init FixedKernels.init_r]. cbv zeta. unfold pydivmod. cbn [Z.eqb bind]. reflexivity.
@@ -61,7 +63,7 @@ Proof.
   intros Hp Hg. pose proof (pow10_pos'' (p + g) ltac:(lia)) as HS.
   set (st := mk_guarded_cls p g d s).
   assert (HS': g_scale st = 10 ^ (p + g)) by reflexivity.
-  refine {| raw := fun a : T (Guarded p g d s) => (a : Z) |}; cbn [Guarded T of_int add sub mulv divv kmuldiv ltv gev eqv exact rnd_of epsilon]; fold st.
+  refine {| raw := fun a : T (Guarded p g d s) => (a : Z) |}; cbn [Guarded T of_int add sub mulv divv kmuldiv ltv gev eqv gtv exact rnd_of epsilon]; fold st.
   - auto.
   - exact HS.
   - intros n. reflexivity.
@@ -87,6 +89,10 @@ Proof.
   - intros Hex a b.
     assert (G0: g = 0) by (destruct (g =? 0) eqn:E; [lia|discriminate]). subst g.
     destruct (rel_of_cmp st a b) as (E1 & _). rewrite E1, res_true_ok.
+    change (g_geps st) with 1. lia.
+  - intros Hex a b.
+    assert (G0: g = 0) by (destruct (g =? 0) eqn:E; [lia|discriminate]). subst g.
+    destruct (rel_of_cmp st a b) as (_ & _ & _ & E4 & _). rewrite E4, res_true_ok.
     change (g_geps st) with 1. lia.
   - intros a n Ha. cbn in Ha.
     destruct (rel_of_cmp st a (GuardedKernels.init st (OInt 1) false)) as (E1 & _). rewrite E1, res_true_ok.
